@@ -507,18 +507,20 @@ impl FieldParser {
             .checked_div(usize::from(template.get_total_size()))
             .unwrap_or(0);
 
-        let (remaining, fields) = (0..record_count).fold(
-            (input, Vec::new()), // Initial accumulator: (fields, remaining)
-            |(remaining, mut fields), _| {
-                let (new_remaining, data_field) =
-                    match Self::parse_data_field(remaining, template.clone()) {
-                        Ok((remaining, data_field)) => (remaining, data_field),
-                        Err(_) => return (remaining, fields),
-                    };
-                fields.push(data_field);
-                (new_remaining, fields)
-            },
-        );
+        let mut fields = Vec::new();
+        let mut remaining = input;
+
+        for _ in 0..record_count {
+            match Self::parse_data_field(remaining, &template) {
+                Ok((new_remaining, data_field)) => {
+                    fields.push(data_field);
+                    remaining = new_remaining;
+                }
+                // Nothing was consumed, so the same record would fail the same way on every
+                // further iteration: stop here instead of retrying it record_count times.
+                Err(_) => break,
+            }
+        }
 
         Ok((remaining, fields))
     }
@@ -543,10 +545,10 @@ impl FieldParser {
     /// # Errors
     ///
     /// The function returns an error if parsing any individual field fails according to its type-defined parser.
-    fn parse_data_field(
-        mut input: &[u8],
-        template: Template,
-    ) -> IResult<&[u8], BTreeMap<usize, V9FieldPair>> {
+    fn parse_data_field<'a>(
+        mut input: &'a [u8],
+        template: &Template,
+    ) -> IResult<&'a [u8], BTreeMap<usize, V9FieldPair>> {
         let mut data_field = BTreeMap::new();
 
         for (field_index, template_field) in template.fields.iter().enumerate() {
